@@ -515,6 +515,9 @@ def allocation_results(ck, prog):
                 'the caller', 'TS',
                 breaks='an out-of-memory NULL is taken for a meaningful value (an empty list, "no restriction", "not '
                        'set") or dereferenced', floor=5)
+    if getattr(ck, 'variant', 'A') != 'A':
+        # assertions are one of the accepted ways to examine a result; they are compiled out in the other variants
+        return
     names = allocating_nullable(prog)
     n = 0
     for f in prog.funcs.values():
